@@ -370,6 +370,22 @@ def rule_chunk_protocol(ck, m, rid):
                 n_calls += 1
                 ck.ob(rid, enclosing_stmt(c), not c.args and not c.keywords, f"{q}: get_chunks is called with another chunk size `{short(c, 50)}`", stmt=f"{q}: get_chunks() with the default size")
     ck.expect(n_calls >= 2, f"expected >= 2 call sites of get_chunks, found {n_calls}")
+    # the m-flag protocol itself: decided by exploring the finite abstract state space of the generator (tiv.protocol) whatever the shape
+    # of its loop; the idiom rules below are the fallback for generators outside the interpreted fragment (e.g. index slicing)
+    from tiv.protocol import Explorer, Undecidable
+    ex = Explorer(gc)
+    try:
+        viol = ex.run()
+        model_checked = True
+    except Undecidable as e_:
+        viol, model_checked = [], False
+        ck.extra.setdefault("notes", []).append(f"get_chunks: abstract exploration not applicable ({e_}); idiom rules used")
+    if model_checked:
+        ck.ob(rid, gc, ex.n_yields >= 2, f"get_chunks: the abstract exploration met {ex.n_yields} yields (expected the first command and the continuation commands)", stmt="get_chunks: yields explored")
+        for msg_, node_ in viol:
+            ck.ob(rid, enclosing_stmt(node_) if node_ is not None and not isinstance(node_, ast.FunctionDef) else gc, False, f"get_chunks: {msg_}", stmt="get_chunks: m-flag protocol (abstract exploration)")
+        if not viol:
+            ck.ob(rid, gc, True, f"get_chunks: {ex.n_states} abstract steps, {len(ex.seen)} loop-head states", stmt="get_chunks: m-flag protocol (abstract exploration)")
     ys = _yields(gc)
     loops = [n for n in body_walk(gc) if isinstance(n, ast.While)]
     r1 = find_stmts("$$a = payload.read(size)", body_walk(gc))
@@ -386,8 +402,8 @@ def rule_chunk_protocol(ck, m, rid):
     alt = False
     if not recognised:
         alt = _alt_chunk_idioms(ck, gc, ys, rid)
-    ck.expect(recognised or alt, "get_chunks: neither the one-chunk look-ahead idiom nor a recognised alternative (index slicing / length-derived flag) - cannot decide the m-flag protocol")
-    if recognised:
+    ck.expect(recognised or alt or model_checked, "get_chunks: neither the abstract exploration, the one-chunk look-ahead idiom nor a recognised alternative (index slicing / length-derived flag) applies - cannot decide the m-flag protocol")
+    if recognised and not model_checked:
         cur, ahead = norm(reads[0][1]["a"]), norm(reads[0][1]["b"])
         ck.ob(rid, loops[0], norm(loops[0].test) == ahead, f"the loop must run while the look-ahead chunk `{ahead}` is non-empty; found `while {norm(loops[0].test)}`", stmt="get_chunks: while <look-ahead>")
         first, inloop, last = None, None, None
